@@ -3,7 +3,9 @@ import random, re
 from vlib import jtree, streams, gen, zones
 from vlib.run import *
 
-FIELDS = ['Fq1f', 'Fq22ff', 'Fq3', 'x', 'IX', 'SCAN', 'ab', 'abc', 'f0e1', 'deadbeef', 'user_Name', 'Aq.Bq', 'Pq.Qq.Rq', 'Zq9z8y7x6w5v4u3t2s1r']
+FIELDS = ['Fq1f', 'Fq22ff', 'Fq3', 'x', 'IX', 'SCAN', 'ab', 'abc', 'f0e1', 'deadbeef', 'user_Name', 'Aq.Bq', 'Pq.Qq.Rq', 'Zq9z8y7x6w5v4u3t2s1r',
+          # names that are not identifiers: leading digit, leading underscore, hyphen, non-ASCII, blank inside, '@'
+          '7c3e91bd', '9d04fe.zone', '_priv8q', 'order-idq', 'gr\u00f6\u00dfeq', 'first nameq', 'k@tq']
 
 def run(chk, replay=None):
     rng = random.Random(chk.seed)
@@ -82,7 +84,7 @@ def run(chk, replay=None):
                                 w(y, kp + (key,))
                         elif k == 'arr':
                             for y in x: w(y, kp)
-                        elif k == 'str' and name in re.split(r'[^A-Za-z0-9_]+', x) and kp[-1:] != ('planSummary',):
+                        elif k == 'str' and re.search(r'(?<![A-Za-z0-9_])' + re.escape(name) + r'(?![A-Za-z0-9_])', x) and kp[-1:] != ('planSummary',):
                             where.add('dollarref' if x.startswith('$') else 'plainvalue')
                     w(tout)
                     tags += sorted(where)
